@@ -590,7 +590,11 @@ def gen_c08(rng, quick=True):
         elif m == "lm":
             kwargs = {"method": m, "model_order": rng.choice([0, 0, 2, 3]), "model_order_method": rng.choice(["matrix_rank", "pseudo_chisqr"])}
         elif m == "bht":
-            kwargs = {"method": m, "num_attempts": rng.randint(1, 3), "num_samples": 10}
+            kwargs = {"method": m, "num_attempts": rng.randint(1, 3), "num_samples": 10,
+                      "maximum_symmetry": rng.choice([0.5, 0.5, 0.2, 0.05]),
+                      "rbf_type": rng.choice(["gaussian", "c2-matern", "cauchy"])}
+            if rng.random() < 0.3:
+                cdc = LADDERS[4]  # inductive loop: attempts are rejected by the symmetry filter more often
             stochastic = True
         else:
             fam = rng.choice(["R(RC)", "R(RQ)"])
